@@ -324,3 +324,30 @@ Proof.
   - apply (lower_sorted_tail k2 v2 r2 k' Hs). simpl in Hl. exact Hl.
   - exact Hl.
 Qed.
+
+(* ---------- versions ---------- *)
+Lemma write_versions_effective : forall ensured h r,
+  let '(h', r') := write_versions ensured h r in
+  r' = None /\ effective h' r' = h' /\ (17 <= h')%N.
+Proof.
+  intros ensured h r. unfold write_versions. simpl.
+  destruct (N.eqb (if ensured then 17%N else effective h r) 20); repeat split; lia.
+Qed.
+
+Lemma write_versions_covers : forall ensured h r since,
+  (since <= 17)%N -> (since <= effective (fst (write_versions ensured h r)) (snd (write_versions ensured h r)))%N.
+Proof.
+  intros ensured h r since Hs. unfold write_versions. simpl.
+  destruct (N.eqb (if ensured then 17%N else effective h r) 20); simpl; lia.
+Qed.
+
+Lemma write_versions_monotone : forall h r,
+  valid_version (effective h r) = true ->
+  (effective h r <= effective (fst (write_versions false h r)) (snd (write_versions false h r)))%N.
+Proof.
+  intros h r. unfold write_versions. cbn [fst snd]. generalize (effective h r). intros e Hv.
+  unfold valid_version in Hv. unfold effective.
+  destruct (N.eqb e 20) eqn:E.
+  - apply N.eqb_eq in E. lia.
+  - rewrite orb_false_r in Hv. apply andb_true_iff in Hv. destruct Hv as [_ H2]. apply N.leb_le in H2. exact H2.
+Qed.
